@@ -481,6 +481,13 @@ func c01(c *ctx) {
 	for k := 0; k < nrt; k++ {
 		c01route(c, k)
 	}
+	nsys := 6
+	if c.thorough() {
+		nsys = 60
+	}
+	for k := 0; k < nsys; k++ {
+		c01system(c, k)
+	}
 }
 
 // burst delivery: many records of ONE stream are handed to the deplex goroutines of several
